@@ -13,7 +13,7 @@ GM = ["DSC", "IOU", "ASSD", "RVD"]
 RULE = (
     "Label-map pairs in 1-3-D incl. one or both sides empty x every non-empty subset of global metrics {DSC,IOU,ASSD,RVD} "
     "(+clDSC in 2-/3-D) x random edge-case handlers (4 scenario values x 5 results per metric) x input types x matchers "
-    "(threshold, many-to-one, merge); plus a re-partitioned variant of the same two foregrounds (voxels relabelled "
+    "(threshold, many-to-one, merge) x label values (small, around 2^8, multiples of 256 and 65536 in wide dtypes); plus a re-partitioned variant of the same two foregrounds (voxels relabelled "
     "arbitrarily, other matcher/threshold). Oracle: global_bin_<m> = model metric on the binarised coordinate sets "
     "(set arithmetic, brute-force ASSD; clDSC via skimage skeleton as in C06); identical between base and variant; with "
     "an empty prediction / reference / both the value is the handler's EMPTY_PRED / EMPTY_REF / NO_INSTANCES value. "
@@ -48,15 +48,27 @@ def case_strategy(draw):
         kind = draw(st.sampled_from(["naive", "naive_m2o", "merge"]))
         return {"kind": "merge" if kind == "merge" else "naive", "metric": mm, "thr": draw(st.sampled_from([0.0, 0.25, 0.5, 0.75, 1.0])), "m2o": kind == "naive_m2o"}
     hm = sorted(set(gms) | {"DSC"})
+    dtype = draw(st.sampled_from(["uint8", "uint16"]))
+    if draw(st.booleans()):  # label values must not matter: also multiples of 256 / 65536 in wide dtypes
+        cls = ("small", "near8", "over8", "mult256", "mult256", "over16")
+        pl = [int(x) for x in np.unique(pred) if x]
+        rl = [int(x) for x in np.unique(ref) if x]
+        if it == "MATCHED_INSTANCE":
+            mp = draw(gen.injective_relabel(sorted(set(pl) | set(rl)), cls))
+            pm, rm = {l: mp[l] for l in pl}, {l: mp[l] for l in rl}
+        else:
+            pm, rm = draw(gen.injective_relabel(pl, cls)), draw(gen.injective_relabel(rl, cls))
+        pred, ref = gen.apply_relabel(pred, pm, "int64"), gen.apply_relabel(ref, rm, "int64")
+        dtype = draw(st.sampled_from(gen.unsigned_at_least(max(list(pm.values()) + list(rm.values()) + [1]))))
     return {
-        "pred": pred.tolist(), "ref": ref.tolist(), "dtype": draw(st.sampled_from(["uint8", "uint16"])), "input": it,
+        "pred": pred.tolist(), "ref": ref.tolist(), "dtype": dtype, "input": it,
         "backend": draw(st.sampled_from([None, "cc3d", "scipy"])) if it == "SEMANTIC" else None,
         "matcher": None if it == "MATCHED_INSTANCE" else mcfg(),
         "matcher2": None if it == "MATCHED_INSTANCE" else mcfg(),
         "gmetrics": gms,
         "handler": draw(handler_cfg(hm)),
-        "relabel_pred": draw(st.lists(st.integers(1, 3), min_size=n, max_size=n)),
-        "relabel_ref": draw(st.lists(st.integers(1, 3), min_size=n, max_size=n)),
+        "relabel_pred": draw(st.lists(st.sampled_from([1, 2, 3, 256, 512]), min_size=n, max_size=n)),
+        "relabel_ref": draw(st.lists(st.sampled_from([1, 2, 3, 256, 512]), min_size=n, max_size=n)),
     }
 
 
@@ -91,7 +103,7 @@ def check(case, stats):
     else:
         scen = "NO_INSTANCES" if not P and not R else "EMPTY_PRED" if not P else "EMPTY_REF"
         nontrivial = any(len(set(hc["metrics"][m])) > 1 for m in case["gmetrics"])
-    stats.record(case, nontrivial, [f"scenario={scen}", f"input={case['input']}", f"n_global={len(case['gmetrics'])}"] + [f"g={m}" for m in case["gmetrics"]])
+    stats.record(case, nontrivial, [f"scenario={scen}", f"input={case['input']}", f"n_global={len(case['gmetrics'])}", f"dtype={case['dtype']}"] + (["label_multiple_of_256"] if (pred.astype("int64") % 256 == 0)[pred != 0].any() or (ref.astype("int64") % 256 == 0)[ref != 0].any() else []) + [f"g={m}" for m in case["gmetrics"]])
     got = _run(pred, ref, case, "matcher")
     for m in case["gmetrics"]:
         g = got[m]
@@ -118,8 +130,11 @@ def check(case, stats):
             raise Violation(f"global_bin_{m.lower()}={g!r}, metric on the binarised foregrounds is {want!r}")
     # re-partitioned variant with the same foregrounds
     if scen is None:
-        p2 = (np.array(case["relabel_pred"]).reshape(shape) * (pred != 0)).astype(case["dtype"])
-        r2 = (np.array(case["relabel_ref"]).reshape(shape) * (ref != 0)).astype(case["dtype"])
+        dt2 = case["dtype"] if np.iinfo(case["dtype"]).max >= 512 else "uint16"
+        p2 = (np.array(case["relabel_pred"]).reshape(shape) * (pred != 0)).astype(dt2)
+        r2 = (np.array(case["relabel_ref"]).reshape(shape) * (ref != 0)).astype(dt2)
+        if case["input"] == "MATCHED_INSTANCE":
+            pass  # any labelling is a valid matched pair
         got2 = _run(p2, r2, case, "matcher2")
         for m in case["gmetrics"]:
             a, b = got[m], got2[m]
